@@ -84,9 +84,19 @@ def check_case(ctx, case, record=True):
         if msgs:
             ctx.violation(case, tag + "operations differ from the out-of-date model (out-of-date=" + str(sorted(ood)) +
                           f", times={times_before}, fresh={ft}): " + "; ".join(msgs))
-        # repeat immediately with no output: nothing but modified-time queries
-        op2 = dict(op, output=None)
-        op2.pop("fresh_off", None)
+        # repeat immediately with no output: nothing but modified-time queries.  The only values a
+        # successful run can leave out of date are sources nobody rewrites although something upstream of
+        # them is newer (a pure source with extra dependencies) and whatever is downstream of those; the
+        # "consequently" clause is owed when there are none, otherwise the repeat must again do exactly
+        # what the model says for the new state.
+        ood_after = refmodel.out_of_date(spec, regcommon.times_of(w), ft)
+        unrepairable = {i for i, nd in enumerate(spec["nodes"])
+                        if specs.src_kind(nd) == "pure" and nd.get("xdeps")}
+        allowed = {i for i in ent if i in unrepairable or (specs.strict_ancestors(spec, i) & unrepairable)}
+        if not ood_after <= allowed:
+            ctx.violation(case, tag + f"after a successful run the stored values {sorted(ood_after - allowed)} are still "
+                                      f"out of date (times={regcommon.times_of(w)}, fresh={ft})")
+        need2 = refmodel.needed(spec, ood_after, None, registry=True)
         w.reset_log()
         cfg = dict(op["cfg"])
         if ft is not None:
@@ -95,9 +105,17 @@ def check_case(ctx, case, record=True):
         obs2 = refmodel.observed(w)
         if st_ != "ok":
             ctx.violation(case, tag + f"repeated run failed: {val!r}")
-        if obs2["exec"] or obs2["reads"] or obs2["writes"]:
-            ctx.violation(case, tag + f"immediate repeat with no output was not a no-op: calls={dict(obs2['exec'])} "
-                                      f"reads={dict(obs2['reads'])} writes={dict(obs2['writes'])}")
+        if not ood_after:
+            if obs2["exec"] or obs2["reads"] or obs2["writes"]:
+                ctx.violation(case, tag + f"immediate repeat with no output was not a no-op: calls={dict(obs2['exec'])} "
+                                          f"reads={dict(obs2['reads'])} writes={dict(obs2['writes'])}")
+        else:
+            msgs2 = compare(need2, obs2)
+            if record:
+                ctx.count("repeat_with_unrepairable_source")
+            if msgs2:
+                ctx.violation(case, tag + "immediate repeat differs from the out-of-date model (out-of-date="
+                              + str(sorted(ood_after)) + "): " + "; ".join(msgs2))
         if record:
             nt = proper or bool(need["writes"])
             ctx.case({"case": case, "run": n}, nt,
@@ -110,7 +128,7 @@ def check_case(ctx, case, record=True):
 def run_shard(ctx):
     max_nodes, max_ops = (8, 6) if ctx.tier == "quick" else (12, 9)
 
-    @given(regcommon.reg_cases(max_nodes=max_nodes, max_ops=max_ops))
+    @given(regcommon.reg_cases(max_nodes=max_nodes, max_ops=max_ops, xdeps=True, alias=True))
     def test(case):
         check_case(ctx, case)
 
